@@ -19,7 +19,7 @@ CLAIMED = {
     "C05": {
         "category": "other",
         "technique": "independent file checker written in Lean (decoder + WF + page accounting), proved sound in Lean, executed on the real file bytes after every commit; plus DB::check and contents comparison with the specification",
-        "text": "After every commit of every generated history the harness snapshots the file and the Lean driver decodes it with the layout regenerated from /repo/src, chooses the header as the code does, unfolds every bucket tree, evaluates wfb (keys strictly ascending within and across pages, separators bound their subtrees, every element inside its run), and checks that reached runs + free-list run + free-list entries are exactly pages 2..numPages-1 with no page twice; the decoded contents must equal the specification's and DB::check must agree. Proved in Lean: wfb is sound for WF (so Layer Q theorems apply to the real file), the accounting comparison is exact (no duplicate, none missing, none out of range); the model of one bucket's commit keeps 'keys strictly ascending, separators bound their subtrees' for every tree, every list of rebalance steps and every page size (commit_keeps_tree_wellformed), and the run checks on every commit that this model predicts the shape of the tree the code wrote and that the invariant's executable forms (proved sound) hold on the real overlay before and the real tree after. Also proved: decodePage after writeLeafPage / writeBranchPage is the identity on every node that fits its run, and the writer changes no other byte; the run checks that every tree page of the real file holds exactly the bytes this model writer produces. Pages: the model's commit provably frees only pages of the overlay, each once, keeps only untouched nodes and requests non-empty runs (the client conditions of the release protocol), and along every history of such writers every page is in exactly one of reachable / free / pending (coverage + disjointness); the run checks on every commit that the freed page set and the number of new pages are exactly the model's. Not proved: that the real allocation sequence is the model's request sequence in order (tied by exact free-list state comparison instead).",
+        "text": "After every commit of every generated history the harness snapshots the file and the Lean driver decodes it with the layout regenerated from /repo/src, chooses the header as the code does, unfolds every bucket tree, evaluates wfb (keys strictly ascending within and across pages, separators bound their subtrees, every element inside its run), and checks that reached runs + free-list run + free-list entries are exactly pages 2..numPages-1 with no page twice; the decoded contents must equal the specification's and DB::check must agree. Proved in Lean: wfb is sound for WF (so Layer Q theorems apply to the real file), the accounting comparison is exact (no duplicate, none missing, none out of range); the model of one bucket's commit keeps 'keys strictly ascending, separators bound their subtrees' for every tree, every list of rebalance steps and every page size (commit_keeps_tree_wellformed), and the run checks on every commit that this model predicts the shape of the tree the code wrote and that the invariant's executable forms (proved sound) hold on the real overlay before and the real tree after. Also proved: the whole executable check is sound (acceptance implies, for every bucket at every depth, a well-formed tree linked to its parent's entry, and exact page accounting) and the database's own check (modelled as implCheck, tied to the real DB::check on committed files and on images with damaged tree pages) accepts whatever it accepts; decodePage after writeLeafPage / writeBranchPage is the identity on every node that fits its run, and the writer changes no other byte; the run checks that every tree page of the real file holds exactly the bytes this model writer produces. Pages: the model's commit provably frees only pages of the overlay, each once, keeps only untouched nodes and requests non-empty runs (the client conditions of the release protocol), and along every history of such writers every page is in exactly one of reachable / free / pending (coverage + disjointness); the run checks on every commit that the freed page set and the number of new pages are exactly the model's. Not proved: that the real allocation sequence is the model's request sequence in order (tied by exact free-list state comparison instead).",
         "design_ref": "DESIGN.md §5 C05, §3.2, §3.6",
         "note": COMMON_NOTE + "The checker shares no code with jammdb; bytes outside defined ranges (padding, stale tails) are unconstrained by design.",
     },
